@@ -52,6 +52,7 @@ var poolDec = []string{"1", "1.0", "1.00", "0", "-0", "0.0", "0E+10", "2", "3", 
 	"9223372036854775807", "9223372036854775808", "-9223372036854775808", "2147483647", "2147483648",
 	"0.1000000000000000055511151231257827", "1E-300", "5E-324", "4.9E-324",
 	"1234567890123456789012345678901234", "0.30000000000000004", "0.3", "1E+300", "1E+22", "1E+23", "99999999999999991611392", "4294967296.5", "1.7976931348623157E+308", "1.7976931348623158E+308"}
+
 // extreme exponents make the exact model slow (10^6176): drawn rarely
 var poolDecExtreme = []string{"1E+6111", "9.999999999999999999999999999999999E+6144", "1E-6176", "-1E+6111", "0E+6111", "0E-6176"}
 
